@@ -13,6 +13,7 @@
   keyword): its former negation witness `do (1 + 2);` is now the example of the positive `stmt_do_roundtrip`.
 -/
 import BlocV.Proofs.Lemmas.Parse
+import BlocV.Proofs.Lemmas.ParseStmt
 
 namespace BlocV.C12
 open BlocV BlocV.Parse BlocV.Unparse BlocV.Roundtrip BlocV.C12L
@@ -70,30 +71,29 @@ example : numOk 0x3FD3333333333333 = true ∧ numOk 0x4005bf0a8b145769 = true :=
 /-- the largest double is NOT such a decimal: its 16-digit text 1.797693134862316e+308 overflows when read -/
 example : numOk 0x7fefffffffffffff = false := by decide +kernel
 
-/-! ### Expressions: parse ∘ unparse on the operator core -/
+/-! ### Expressions: parse ∘ unparse, every expression form -/
 
-/-- **Round trip of the operator core.** For every tree `e` in the image of the parser (`wf`: precedence
+/-- **Round trip of expressions (all node kinds).** For every tree `e` in the image of the parser (`wf`: precedence
 respected, integer constants ≥ 0, decimals that survive "%.16g", NUL-free strings, upper-case non-reserved
-names) built from all 21 binary operators, the 4 unary operators, variables, literals, the constants
-`null true false error phi pi ee ii` and parentheses (`core`): parsing the tokens of its text, followed by
-any token `t` that does not continue an expression (and is not `(` when the text ends with a variable name),
-yields exactly `norm e` and leaves `t :: ts`, for every sufficient fuel. -/
-theorem expr_roundtrip (e : PExpr) (hwf : wf e = true) (hcore : core e = true)
+names, built-in calls with an accepted arity, member receivers that are elements) built from all 21 binary
+operators, the 4 unary operators, variables, literals, the constants `null true false error phi pi ee ii`,
+parentheses, built-in calls `f(a, b)` (incl. `tup(...)`, `tab(..)` constructors), user function calls `F(a,b)`, member
+calls `e.m(args)`, `e.set@N(x)` and items `e@N` — argument lists of any length, member chains of any depth:
+parsing the tokens of its text, followed by any token `t` that does not continue an expression (and is not `(`
+when the text ends with a variable name), yields exactly `norm e` and leaves `t :: ts`, for every sufficient fuel.
+(Until round C12-deepen this was proved for the operator core only; `core` is no longer a hypothesis.) -/
+theorem expr_roundtrip (e : PExpr) (hwf : wf e = true)
     (t : Tok) (ts : List Tok) (hstop : Stops 9 t) (hvar : endsVar e = true → t.code ≠ cLP)
     (f : Nat) (hf : 16 * esize e + 13 ≤ f) :
     pExpr f (toksExpr e ++ t :: ts) = .ok (norm e, t :: ts) :=
-  (core_rt e 9 hwf hcore (by
-      cases e with
-      | un op enc x => cases enc <;> simp [lvlE]
-      | bin op enc a b => cases enc <;> simp [lvlE] <;> cases op <;> simp [lvlOf]
-      | _ => simp [lvlE]) (Nat.le_refl _)).1 t ts hstop hvar f hf
+  (full_rt e 9 hwf (lvlE_le9 e) (Nat.le_refl _)).1 t ts hstop hvar f hf
 
 /-- the same at every precedence level `L` the node can be produced at (what the operand positions need) -/
-theorem expr_roundtrip_level (e : PExpr) (L : Nat) (hwf : wf e = true) (hcore : core e = true)
+theorem expr_roundtrip_level (e : PExpr) (L : Nat) (hwf : wf e = true)
     (hl : lvlE e ≤ L) (h9 : L ≤ 9) (t : Tok) (ts : List Tok) (hstop : Stops L t)
     (hvar : endsVar e = true → t.code ≠ cLP) (f : Nat) (hf : 16 * esize e + L + 4 ≤ f) :
     pLevel f L (toksExpr e ++ t :: ts) = .ok (norm e, t :: ts) :=
-  (core_rt e L hwf hcore hl h9).1 t ts hstop hvar f hf
+  (full_rt e L hwf hl h9).1 t ts hstop hvar f hf
 
 /-- `- a ** 2 + (b * 3 <= 4) and not c`-like tree: hypotheses are satisfiable, `norm` is not the identity -/
 def exTree : PExpr :=
@@ -105,14 +105,26 @@ def exTree : PExpr :=
 example : wf exTree = true ∧ core exTree = true := by decide +kernel
 example : Stops 9 (ch 59) ∧ (endsVar exTree = true → (ch 59).code ≠ cLP) := by decide
 example : pExpr 1000 (toksExpr exTree ++ [ch 59]) = .ok (norm exTree, [ch 59]) :=
-  expr_roundtrip exTree (by decide +kernel) (by decide +kernel) (ch 59) [] (by decide) (by decide) 1000 (by decide +kernel)
+  expr_roundtrip exTree (by decide +kernel) (ch 59) [] (by decide) (by decide) 1000 (by decide +kernel)
+
+/-- `max(A, F(1,"x")).concat(T@2).set@3(tup(1, -B))`: built-in call, user function call, member call, item, `set@`,
+tuple constructor, nested argument lists — outside the operator core, inside the theorem's domain. -/
+def exCalls : PExpr :=
+  .setm (.member (.call (bytesOf "max") [.var (bytesOf "A"), .fcall (bytesOf "F") [.int 1, .str (bytesOf "x")]])
+      (bytesOf "concat") [.item (.var (bytesOf "T")) 2]) 3
+    (.call (bytesOf "tup") [.int 1, .un .neg false (.var (bytesOf "B"))])
+
+example : wf exCalls = true ∧ core exCalls = false := by decide +kernel
+example : unparseExpr exCalls = bytesOf "max(A, F(1,\"x\")).concat(T@2).set@3(tup(1, -B))" := by decide +kernel
+example : pExpr 1000 (toksExpr exCalls ++ [ch 59]) = .ok (norm exCalls, [ch 59]) :=
+  expr_roundtrip exCalls (by decide +kernel) (ch 59) [] (by decide) (by decide) 1000 (by decide +kernel)
 
 /-- Trees the parser itself returns with every unary operand already enclosed are fixed points. -/
-theorem expr_roundtrip_id (e : PExpr) (hwf : wf e = true) (hcore : core e = true) (hn : norm e = e)
+theorem expr_roundtrip_id (e : PExpr) (hwf : wf e = true) (hn : norm e = e)
     (t : Tok) (ts : List Tok) (hstop : Stops 9 t) (hvar : endsVar e = true → t.code ≠ cLP)
     (f : Nat) (hf : 16 * esize e + 13 ≤ f) :
     pExpr f (toksExpr e ++ t :: ts) = .ok (e, t :: ts) := by
-  have := expr_roundtrip e hwf hcore t ts hstop hvar f hf
+  have := expr_roundtrip e hwf t ts hstop hvar f hf
   rwa [hn] at this
 
 /-- after one round trip the tree is in normal form: the second round trip is the identity -/
@@ -125,11 +137,11 @@ With `expr_roundtrip`: unparse (parse (unparse e)) = unparse e. -/
 theorem unparse_fixpoint (e : PExpr) : unparseExpr (norm e) = unparseExpr e ∧ toksExpr (norm e) = toksExpr e :=
   ⟨unparse_norm e, toks_norm e⟩
 
-theorem unparse_fixpoint_core (e : PExpr) (hwf : wf e = true) (hcore : core e = true)
+theorem unparse_fixpoint_core (e : PExpr) (hwf : wf e = true)
     (t : Tok) (ts : List Tok) (hstop : Stops 9 t) (hvar : endsVar e = true → t.code ≠ cLP)
     (f : Nat) (hf : 16 * esize e + 13 ≤ f) :
     (pExpr f (toksExpr e ++ t :: ts)).toOption.map (fun r => unparseExpr r.1) = some (unparseExpr e) := by
-  rw [expr_roundtrip e hwf hcore t ts hstop hvar f hf]
+  rw [expr_roundtrip e hwf t ts hstop hvar f hf]
   simp [Except.toOption, unparse_norm]
 
 /-- The tree read back translates to the SAME interpreter program (the translation forgets `enc`), so it
@@ -140,11 +152,11 @@ theorem behaviour_preserved_eval (e : PExpr) (funcs : List Func) (depth fuel : N
     (toExpr (norm e)).map (fun x => eval funcs depth fuel x st) = (toExpr e).map (fun x => eval funcs depth fuel x st) := by
   rw [behaviour_preserved]
 
-theorem behaviour_preserved_core (e : PExpr) (hwf : wf e = true) (hcore : core e = true)
+theorem behaviour_preserved_core (e : PExpr) (hwf : wf e = true)
     (t : Tok) (ts : List Tok) (hstop : Stops 9 t) (hvar : endsVar e = true → t.code ≠ cLP)
     (f : Nat) (hf : 16 * esize e + 13 ≤ f) :
     ∃ e', pExpr f (toksExpr e ++ t :: ts) = .ok (e', t :: ts) ∧ toExpr e' = toExpr e :=
-  ⟨norm e, expr_roundtrip e hwf hcore t ts hstop hvar f hf, toExpr_norm e⟩
+  ⟨norm e, expr_roundtrip e hwf t ts hstop hvar f hf, toExpr_norm e⟩
 
 /-! ### Statements: assignment, also chained (`a = e1 , b = e2 ;`) -/
 
@@ -163,12 +175,12 @@ theorem nameOk_notReserved {n : Bytes} (h : nameOk n = true) : reserved n = fals
 def toksLet (n : Bytes) (e : PExpr) : List Tok := ⟨cKW, n⟩ :: ch 61 :: (toksExpr e ++ [ch 59])
 
 /-- `NAME = e;` reads back as the same assignment (of `norm e`), whatever follows, at top level or in a block. -/
-theorem stmt_let_roundtrip (n : Bytes) (e : PExpr) (hn : nameOk n = true) (hwf : wf e = true) (hcore : core e = true)
+theorem stmt_let_roundtrip (n : Bytes) (e : PExpr) (hn : nameOk n = true) (hwf : wf e = true)
     (nested : Bool) (rest : List Tok) (f : Nat) (hf : 16 * esize e + 16 ≤ f) :
     pStmt f nested (toksLet n e ++ rest) = .ok (some (.letS n (norm e) none), rest) := by
   obtain ⟨f1, rfl⟩ : ∃ f1, f = f1 + 1 := ⟨f - 1, by omega⟩
   obtain ⟨f2, rfl⟩ : ∃ f2, f1 = f2 + 1 := ⟨f1 - 1, by omega⟩
-  have he := expr_roundtrip e hwf hcore (ch 59) rest semi_stops (fun _ => semi_not_lp) f2 (by omega)
+  have he := expr_roundtrip e hwf (ch 59) rest semi_stops (fun _ => semi_not_lp) f2 (by omega)
   have e1 : toksLet n e ++ rest = ⟨cKW, n⟩ :: ch 61 :: (toksExpr e ++ ch 59 :: rest) := by simp [toksLet]
   rw [e1, pStmt.eq_def]
   simp [nameOk_notStmt hn, cKW, cSEMI, Gen.TOKEN_KEYWORD, ch, cEQ]
@@ -179,15 +191,15 @@ theorem stmt_let_roundtrip (n : Bytes) (e : PExpr) (hn : nameOk n = true) (hwf :
 
 example : pStmt 100 false (toksLet (bytesOf "A") (.bin .add false (.int 1) (.var (bytesOf "B"))) ++ [kw "print"]) =
     .ok (some (.letS (bytesOf "A") (.bin .add false (.int 1) (.var (bytesOf "B"))) none), [kw "print"]) :=
-  stmt_let_roundtrip _ _ (by decide +kernel) (by decide +kernel) (by decide +kernel) false _ 100 (by decide +kernel)
+  stmt_let_roundtrip _ _ (by decide +kernel) (by decide +kernel) false _ 100 (by decide +kernel)
 
 /-- Chained: `NAME = e , <next statement>` reads back as the assignment carrying whatever the next
 statement reads back as (`unparse_next` writes ` , `). -/
-theorem stmt_let_chain (n : Bytes) (e : PExpr) (hn : nameOk n = true) (hwf : wf e = true) (hcore : core e = true)
+theorem stmt_let_chain (n : Bytes) (e : PExpr) (hn : nameOk n = true) (hwf : wf e = true)
     (nested : Bool) (ts' r : List Tok) (nx : Option PStmt) (f : Nat) (hf : 16 * esize e + 13 ≤ f)
     (hnext : pStmt f nested ts' = .ok (nx, r)) :
     pStmt (f + 2) nested (⟨cKW, n⟩ :: ch 61 :: (toksExpr e ++ ch 44 :: ts')) = .ok (some (.letS n (norm e) nx), r) := by
-  have he := expr_roundtrip e hwf hcore (ch 44) ts' comma_stops (fun _ => comma_not_lp) f hf
+  have he := expr_roundtrip e hwf (ch 44) ts' comma_stops (fun _ => comma_not_lp) f hf
   rw [pStmt.eq_def]
   simp [nameOk_notStmt hn, cKW, cSEMI, Gen.TOKEN_KEYWORD, ch, cEQ]
   rw [pLet.eq_def]
@@ -208,11 +220,11 @@ the separator) reads back as the DO statement of `norm e`, whatever follows, at 
 EVERY well-formed expression of the operator core. There is no hypothesis on how the text of `e` starts: the
 former exclusion `doHead e = false` (expression statements are recognised by a leading word, and only the
 expression used to be written) is gone with the defect. -/
-theorem stmt_do_roundtrip (e : PExpr) (hwf : wf e = true) (hcore : core e = true)
+theorem stmt_do_roundtrip (e : PExpr) (hwf : wf e = true)
     (nested : Bool) (rest : List Tok) (f : Nat) (hf : 16 * esize e + 14 ≤ f) :
     pStmt f nested (toksDo e ++ rest) = .ok (some (.doS (norm e)), rest) := by
   obtain ⟨f1, rfl⟩ : ∃ f1, f = f1 + 1 := ⟨f - 1, by omega⟩
-  have he := expr_roundtrip e hwf hcore (ch 59) rest semi_stops (fun _ => semi_not_lp) f1 (by omega)
+  have he := expr_roundtrip e hwf (ch 59) rest semi_stops (fun _ => semi_not_lp) f1 (by omega)
   have e1 : toksDo e ++ rest = kw "do" :: (toksExpr e ++ ch 59 :: rest) := by simp [toksDo]
   rw [e1, pStmt_do, he]
   simp [beyond, ch, cRP, cSEMI, bind, Except.bind, pure, Except.pure]
@@ -227,7 +239,7 @@ example : unparseProgram [.doS exDo] = bytesOf "do (1 + 2);\n" := by decide +ker
 example : tokensOf (unparseStmt 0 (.doS exDo) ++ [59]) = toksDo exDo := by decide +kernel
 /-- …and loads as the same statement (was: `(1 + 2);` is not a statement). -/
 example : pStmt 100 false (toksDo exDo ++ [kw "print"]) = .ok (some (.doS exDo), [kw "print"]) :=
-  stmt_do_roundtrip exDo (by decide +kernel) (by decide +kernel) false _ 100 (by decide +kernel)
+  stmt_do_roundtrip exDo (by decide +kernel) false _ 100 (by decide +kernel)
 /-- the other members of the former region: `do 1;`, `do -X;`, `do "s";`, `do 2.5;` -/
 example : (pStmt 100 true (toksDo (.int 1))).toOption.isSome = true ∧
     (pStmt 100 true (toksDo (.un .neg false (.var (bytesOf "X"))))).toOption.isSome = true ∧
@@ -247,15 +259,15 @@ example : (parseText (bytesOf "t.concat(5);\nx + 1;\n")).toOption.map unparsePro
 
 /-- Chained: `NAME = e1 , do e2 ;` (`unparse_next` writes ` , ` and then the DO statement with its keyword). -/
 theorem stmt_let_do_chain (n : Bytes) (e1 e2 : PExpr) (hn : nameOk n = true)
-    (hwf1 : wf e1 = true) (hcore1 : core e1 = true) (hwf2 : wf e2 = true) (hcore2 : core e2 = true)
+    (hwf1 : wf e1 = true) (hwf2 : wf e2 = true)
     (nested : Bool) (rest : List Tok) (f : Nat) (hf1 : 16 * esize e1 + 13 ≤ f) (hf2 : 16 * esize e2 + 14 ≤ f) :
     pStmt (f + 2) nested (⟨cKW, n⟩ :: ch 61 :: (toksExpr e1 ++ ch 44 :: (toksDo e2 ++ rest))) =
       .ok (some (.letS n (norm e1) (some (.doS (norm e2)))), rest) :=
-  stmt_let_chain n e1 hn hwf1 hcore1 nested _ rest _ f hf1 (stmt_do_roundtrip e2 hwf2 hcore2 nested rest f hf2)
+  stmt_let_chain n e1 hn hwf1 nested _ rest _ f hf1 (stmt_do_roundtrip e2 hwf2 nested rest f hf2)
 
 example : pStmt 102 false (⟨cKW, bytesOf "A"⟩ :: ch 61 :: (toksExpr (.int 1) ++ ch 44 :: (toksDo exDo ++ []))) =
     .ok (some (.letS (bytesOf "A") (.int 1) (some (.doS exDo))), []) :=
-  stmt_let_do_chain _ _ _ (by decide +kernel) (by decide +kernel) (by decide +kernel) (by decide +kernel) (by decide +kernel)
+  stmt_let_do_chain _ _ _ (by decide +kernel) (by decide +kernel) (by decide +kernel)
     false [] 100 (by decide +kernel) (by decide +kernel)
 
 /-- **Fixpoint for DO statements** (all node kinds): the DO statement of the tree read back is saved as the same
@@ -271,11 +283,11 @@ example : unparseStmt 1 (.doS (norm exDoNeg)) = bytesOf "do -(A power 2)" ∧
     unparseStmt 1 (.doS exDoNeg) = bytesOf "do -(A power 2)" := by decide +kernel
 
 /-- with the round trip: unparse (parse (unparse (do e))) = unparse (do e) -/
-theorem stmt_do_fixpoint_core (e : PExpr) (hwf : wf e = true) (hcore : core e = true)
+theorem stmt_do_fixpoint_core (e : PExpr) (hwf : wf e = true)
     (nested : Bool) (rest : List Tok) (f : Nat) (hf : 16 * esize e + 14 ≤ f) (lvl : Nat) :
     (pStmt f nested (toksDo e ++ rest)).toOption.map (fun r => r.1.map (unparseStmt lvl)) =
       some (some (unparseStmt lvl (.doS e))) := by
-  rw [stmt_do_roundtrip e hwf hcore nested rest f hf]
+  rw [stmt_do_roundtrip e hwf nested rest f hf]
   simp [Except.toOption, (stmt_do_fixpoint lvl e).1]
 
 example : (pStmt 100 false (toksDo exDoNeg)).toOption.map (fun r => r.1.map (unparseStmt 0)) = some (some (bytesOf "do -(A power 2)")) := by
@@ -289,6 +301,102 @@ theorem stmt_do_behaviour (e : PExpr) : toStmts (.doS (norm e)) = toStmts (.doS 
 
 example : toStmts (.doS (norm exDoNeg)) = toStmts (.doS exDoNeg) ∧ (toStmts (.doS exDoNeg)).isSome = true :=
   ⟨stmt_do_behaviour _, by decide +kernel⟩
+
+/-! ### Statements and programs (round C12-deepen)
+
+  FULL STATEMENT aimed at (NOT proved in full — see `program_roundtrip_partial`):
+      ∀ p, wfP p → parseText (unparseProgram p) = .ok (normP p)
+  Proved: (a) for ALL programs, every statement kind, every indentation level: the program read back is saved as the
+  same bytes / tokens and is the same interpreter program (`unparse_fixpoint_program`, `behaviour_preserved_program`);
+  (b) the parser half on TOKENS for every statement kind without a block, with all expression forms inside, chains of
+  any length and print lists with their side condition explicit (`stmt_roundtrip_flat`, `print_roundtrip`), and for
+  programs made of such statements (`program_roundtrip_partial`).
+  Missing: the block statements (if / while / for / forall / begin / function) in the parser half, and the step from
+  bytes to tokens (`tokensOf (unparseProgram p) = toksProgram p`), which is evaluated by the driver on every case. -/
+
+/-- **Print / put lists, side condition explicit.** The items of a print list are written one after the other; they read
+back as the same items iff consecutive items are separable — `itemsSep`: the next item's first token does not continue
+an expression (no sign) and is not `(` after a bare name (the region `printAdj` of finding C12.print_items_fuse). -/
+theorem print_roundtrip (args : List PExpr) (hwf : wfArgs args = true) (hsep : itemsSep args = true)
+    (rest : List Tok) (f : Nat) (hf : 16 * esizeArgs args + 15 ≤ f) :
+    pItems f ((toksArgs args).flatten ++ ch 59 :: rest) = .ok (normArgs args, ch 59 :: rest) :=
+  items_rt args hwf hsep rest f hf
+
+/-- `print A "x" (B + 1) T@1 not C` -/
+def exItems : List PExpr :=
+  [.var (bytesOf "A"), .str (bytesOf "x"), .bin .add true (.var (bytesOf "B")) (.int 1), .item (.var (bytesOf "T")) 1,
+   .un .bnot false (.var (bytesOf "C"))]
+example : wfArgs exItems = true ∧ itemsSep exItems = true := by decide +kernel
+/-- the side condition is needed, and it is where the finding lives: `X` `(-1)` fuse; a sign fuses too -/
+example : itemsSep [.var (bytesOf "X"), .un .neg true (.int 1)] = false ∧ printAdj [.var (bytesOf "X"), .un .neg true (.int 1)] = true ∧
+    itemsSep [.int 1, .un .neg false (.var (bytesOf "X"))] = false := by decide +kernel
+
+/-- **Round trip of every statement kind without a block** (nop, break, continue, trace, return [e], `X = e`, `X:type`,
+both with chains ` , ` of any length and any flat statement after the comma, print, put, do, raise), all expression
+forms inside: the tokens of the saved statement followed by the separator read back as `normS s`. -/
+theorem stmt_roundtrip_flat (s : PStmt) (hwf : wfFlat s = true) (nested : Bool) (rest : List Tok) (f : Nat)
+    (hf : 16 * fsize s + 20 ≤ f) :
+    pStmt f nested (toksStmt s ++ ch 59 :: rest) = .ok (some (normS s), rest) :=
+  flat_rt s hwf nested rest f hf
+
+/-- `A = -B power 2 , C:integer , print A "x" (B + 1)` -/
+def exChain : PStmt :=
+  .letS (bytesOf "A") (.un .neg false (.bin .exp false (.var (bytesOf "B")) (.int 2)))
+    (some (.letn (bytesOf "C") (bytesOf "integer") (some (.print [.var (bytesOf "A"), .str (bytesOf "x"),
+      .bin .add true (.var (bytesOf "B")) (.int 1)]))))
+example : wfFlat exChain = true := by decide +kernel
+example : unparseStmt 0 exChain = bytesOf "A = -(B power 2) , C:integer , print A \"x\" (B + 1)" := by decide +kernel
+example : pStmt 1000 true (toksStmt exChain ++ ch 59 :: [kw "end"]) = .ok (some (normS exChain), [kw "end"]) :=
+  stmt_roundtrip_flat exChain (by decide +kernel) true _ 1000 (by decide +kernel)
+
+/-- **Programs — partial.** `Parser::parse` on the tokens of a saved program whose statements are flat gives `normP p`.
+(Full statement: the same for every well-formed program and on bytes; the block statements and the byte→token step are
+missing, see the section comment.) -/
+theorem program_roundtrip_partial (p : List PStmt) (hwf : wfFlatB p = true) (f : Nat) (hf : 16 * psize p + 21 ≤ f) :
+    pProgram f (toksProgram p) = .ok (normP p) :=
+  flat_program_rt p hwf f hf
+
+def exProg : List PStmt := [exChain, .doS exCalls, .ret (some (.call (bytesOf "max") [.var (bytesOf "A"), .int 2])), .raise (bytesOf "E")]
+example : wfFlatB exProg = true := by decide +kernel
+example : pProgram 2000 (toksProgram exProg) = .ok (normP exProg) :=
+  program_roundtrip_partial exProg (by decide +kernel) 2000 (by decide +kernel)
+/-- on this example the saved bytes do scan to `toksProgram` (C13 lexer model, by evaluation) -/
+example : tokensOf (unparseProgram exProg) = toksProgram exProg := by decide +kernel
+
+/-- **Fixpoint at program level, ALL statement kinds**: the program read back (`normP p`) is saved as the same bytes —
+indentation, `elsif` / `else` / `exception` / `when` / `end` lines, function headers included — and as the same tokens. -/
+theorem unparse_fixpoint_program (p : List PStmt) :
+    unparseProgram (normP p) = unparseProgram p ∧ toksProgram (normP p) = toksProgram p :=
+  ⟨unparseBlock_norm 0 p, toksBlock_norm p⟩
+
+/-- the same for a block at any exec level -/
+theorem unparse_fixpoint_block (lvl : Nat) (b : List PStmt) : unparseBlock lvl (normB b) = unparseBlock lvl b :=
+  unparseBlock_norm lvl b
+
+/-- **Behaviour at program level, ALL statement kinds**: the program read back translates to the SAME interpreter
+program (Model/Interp.lean), hence runs the same in every state. -/
+theorem behaviour_preserved_program (p : List PStmt) : toProgram (normP p) = toProgram p := toBlock_norm p
+
+/-- `if -A power 2 < 0 then while B loop C = -(1) ; end loop; else begin nop; exception when E then return -A power 2; end; end if;
+function F(X:integer) return integer is begin return -X power 2; end;` -/
+def exBlocks : List PStmt :=
+  [.ifS [(.bin .lt false exDoNeg (.int 0), [.whileS (.var (bytesOf "B")) [.letS (bytesOf "C") (.un .neg false (.int 1)) none]])]
+      (some [.begin [.nop] [(bytesOf "E", [.ret (some exDoNeg)])]]),
+   .func (bytesOf "F") [(bytesOf "X", bytesOf "integer")] (bytesOf "integer") [.ret (some exDoNeg)] []]
+example : unparseProgram (normP exBlocks) = unparseProgram exBlocks := (unparse_fixpoint_program exBlocks).1
+example : toProgram (normP exBlocks) = toProgram exBlocks ∧ (toProgram exBlocks).isSome = true :=
+  ⟨behaviour_preserved_program _, by decide +kernel⟩
+/-- by evaluation (lexer + parser model): this block program does load again from its BYTES and is saved as the same bytes -/
+example : (parseText (unparseProgram exBlocks)).toOption.map unparseProgram = some (unparseProgram exBlocks) := by decide +kernel
+
+/-- with the partial round trip: unparse (parse (unparse p)) = unparse p on the tokens of flat programs -/
+theorem unparse_fixpoint_program_partial (p : List PStmt) (hwf : wfFlatB p = true) (f : Nat) (hf : 16 * psize p + 21 ≤ f) :
+    (pProgram f (toksProgram p)).toOption.map unparseProgram = some (unparseProgram p) := by
+  rw [program_roundtrip_partial p hwf f hf]
+  simp [Except.toOption, (unparse_fixpoint_program p).1]
+
+example : (pProgram 2000 (toksProgram exProg)).toOption.map unparseProgram = some (unparseProgram exProg) :=
+  unparse_fixpoint_program_partial exProg (by decide +kernel) 2000 (by decide +kernel)
 
 /-! ### Where the full statement fails (negations, by evaluation) -/
 
